@@ -356,11 +356,24 @@ var c08Bindings = []struct{ prog, want string }{
 	{"function rev(l, acc) { return match (l) { [h, t] => rev(t, [h, acc]), other => acc } } BEGIN { print rev([1, [2, [3, null]]], null) }", "[3, [2, [1, null]]]\n"},
 	{"function zip(p, q) { return match ([p, q]) { [[a, x], [b, y]] => [[a, b], zip(x, y)], other => null } } BEGIN { print zip([1, [2, null]], ['a', ['b', null]]) }", "[[1, \"a\"], [[2, \"b\"], null]]\n"},
 	{"{ r = match ($.pair) { [a, b] => [b, a] } print r; print match (r) { [a, b] => a - b } }", "[2, 1]\n1\n"},
+	// more than 65536 frames between two calls of one function (frame numbering that wraps must not confuse them)
+	{"function pick(x) { return x } function nop(y) { return 0 } BEGIN { for (i = 0; i < 140000; i++) { if (i % 65536 == 0) { print pick(i) } else { nop(i) } } }", "0\n65536\n131072\n"},
+	{"function pick(x) { return match (x) { v => v } } function nop(y) { return 0 } BEGIN { for (i = 0; i < 70000; i++) { if (i % 32768 == 0) { print pick(i) } else { nop(i) } } }", "0\n32768\n65536\n"},
+	{"function pick(x) { t = x; return t } function nop(y) { t = 'stale'; return 0 } BEGIN { for (i = 0; i < 66000; i++) { if (i % 65535 == 0) { print pick(i) } else { nop(i) } } }", "0\n65535\n"},
+	// a name first assigned inside a case body lives in that case's frame only: nothing is left for the next match
+	{"function bump(n) { return match (n) { v => { t = t + v; return t } } } BEGIN { print bump(1), bump(2), bump(3) }", "1 2 3\n"},
+	{"BEGIN { for (i in [1, 2, 3]) { match (i) { v => { cnt = cnt + 1; print cnt } } } }", "1\n1\n1\n"},
+	{"BEGIN { total = 100; match (1) { v => { total = total + v } } print total; match (2) { w => { fresh = w } } fresh = 'global'; match (3) { u => { fresh = fresh + u } } print fresh }", "101\nglobal3\n"},
+	{"BEGIN { match (1) { v => { for (e in [7, 8]) { last = e } print last } } match (2) { v => { print last is unknown, e is unknown } } }", "8\ntrue true\n"},
+	// parameters the caller left out are separate nulls
+	{"function f(a, b, c) { b = 5; return [a, b, c] } BEGIN { print f(1), f() }", "[1, 5, null] [null, 5, null]\n"},
+	{"function g(a, b, c, d) { c++; d = d + 'x'; return [b, c, d] } BEGIN { print g(), g(1) }", "[null, 1, \"x\"] [null, 1, \"x\"]\n"},
+	{"function span(v, lo, hi) { if (lo is null) { lo = 1 } if (hi is null) { hi = 'top' } return [lo, hi] } BEGIN { print span(5), span(5, 2), span(5, 2, 3) }", "[1, \"top\"] [2, \"top\"] [2, 3]\n"},
 }
 
 func c08BindingRun(c *Case, k int) {
 	b := c08Bindings[k]
-	lib := RunLib(b.prog, []InFile{{Name: "in.json", Data: []byte(`{"a": 1, "b": 2, "pair": [1, 2]}`)}}, nil, RunOpts{Budget: 500000})
+	lib := RunLib(b.prog, []InFile{{Name: "in.json", Data: []byte(`{"a": 1, "b": 2, "pair": [1, 2]}`)}}, nil, RunOpts{Budget: 20000000})
 	c.NonTrivial("binding:" + b.prog)
 	c.Count("binding_programs")
 	want := b.want
@@ -503,7 +516,7 @@ func c08Run(c *Case) {
 func init() {
 	register(&Prop{
 		ID: "C08", Level: "exploration",
-		Rule:          "sampled: programs with 1-4 generated functions (arity 0-4, called with too few / exact / too many arguments in every expression position, parameter reassignment, callee locals, global updates, container parameters with element stores, returns from loops and match blocks, nested calls) plus a recursion library (fact, fib, mutual even/odd, ackermann, sumto up to depth 900); after every call the caller prints its own state and probes every callee name with `is unknown`; trace vs reference model, plus the frame automaton M4 (depth at each rule start equals the baseline). Enumerated: 8 long-history programs over 10000 elements (thorough: up to 50000) whose result is compared with the model, and 5 runaway-recursion shapes whose refusal depth must be identical after 0/1/10/5000 completed calls and after one completed recursion 900 deep. 25 programs (results computed by hand) in which argument names coincide with the callee's parameter names in another order (swap, rotate, through match bindings, globals, document fields) or match bindings are read after a recursive call through the same match returned (sums, tree walks, mutual recursion, nested matches). Non-trivial = >= 3 calls and an arity mismatch or recursion; long runs and probes count as non-trivial.",
+		Rule:          "sampled: programs with 1-4 generated functions (arity 0-4, called with too few / exact / too many arguments in every expression position, parameter reassignment, callee locals, global updates, container parameters with element stores, returns from loops and match blocks, nested calls) plus a recursion library (fact, fib, mutual even/odd, ackermann, sumto up to depth 900); after every call the caller prints its own state and probes every callee name with `is unknown`; trace vs reference model, plus the frame automaton M4 (depth at each rule start equals the baseline). Enumerated: 8 long-history programs over 10000 elements (thorough: up to 50000) whose result is compared with the model, and 5 runaway-recursion shapes whose refusal depth must be identical after 0/1/10/5000 completed calls and after one completed recursion 900 deep. 35 programs (results computed by hand) in which argument names coincide with the callee's parameter names in another order (swap, rotate, through match bindings, globals, document fields) or match bindings are read after a recursive call through the same match returned (sums, tree walks, mutual recursion, nested matches), two calls of one function separated by more than 65536 other frames, names created inside a case body (gone when the case ends), several omitted parameters (separate nulls). Non-trivial = >= 3 calls and an arity mismatch or recursion; long runs and probes count as non-trivial.",
 		NumCases:      c08Cases,
 		Run:           c08Run,
 		MinConclusive: func(tier string) int { return 3000 },
